@@ -24,6 +24,7 @@ pub mod c11;
 pub mod c12;
 pub mod c14;
 pub mod c18;
+pub mod c19;
 pub mod rawnode;
 pub mod selftest;
 
